@@ -121,6 +121,7 @@ type poolCall struct {
 	okReply  bool
 	delay    time.Duration
 	done     int32
+	rec      *rig.CallRec
 	gen      int // server generation of the address when the call started
 	killedIn bool
 	marker   []byte // stream: the first message, to find the connection in the taps
@@ -218,6 +219,7 @@ func (r *poolRun) doCall(addrIdx int, form string, delay time.Duration, counter 
 		}
 	default:
 		rec := rig.Do(tc, form, svc.CodecBytes, "S.B0", spec, 256, nil)
+		c.rec = rec
 		c.err = rec.Err
 		if rec.Err == nil {
 			c.okReply = bytes.Equal(rec.Reply, svc.Reply(rec.Args))
@@ -505,6 +507,13 @@ func runPool(p poolParams) *scen.Outcome {
 		n := execCount[c.id]
 		if n > 1 || (c.err == nil && n != 1) {
 			r.bad("C04", "C04/pool/exec-count", fmt.Sprintf("call %s through the Transport (err %v) was executed %d times", c.id, c.err, n))
+		}
+	}
+	for _, c := range r.calls {
+		if c.rec != nil && atomic.LoadInt32(&c.done) == 1 {
+			if extra, changed := c.rec.LateSignals(); extra > 0 || changed {
+				r.bad("C02", "C02/pool/late-signal", fmt.Sprintf("%s through the Transport was signalled %d more times after it had completed (Error changed afterwards: %v)", c.form, extra, changed))
+			}
 		}
 	}
 	failuresAfterKill := 0
